@@ -138,3 +138,13 @@ Proof.
     unfold nblk, bp_num_blocks in *. change (N.to_nat 1) with 1 in Hk. lia. }
   rewrite E. cbn [bind]. exists out. reflexivity.
 Qed.
+(* impl Display for Partition prints the base partition *)
+Lemma g_fp_fmt p f : M_Partition_fmt p f = M_BasePartition_fmt (Partition_base p) f.
+Proof.
+  unfold M_Partition_fmt, Partition_fmt. cbv [bind].
+  destruct (M_BasePartition_fmt (Partition_base p) f) as [[f' r]|]; reflexivity.
+Qed.
+Lemma g_fp_fmt_total n p f : bp_wf n (convbp (Partition_base p)) -> (N.of_nat n < 4294967296)%N ->
+  (N.of_nat (length (BasePartition_block (Partition_base p))) < 4294967296)%N ->
+  exists out, M_Partition_fmt p f = Some (f ++ out, Ok tt).
+Proof. intros W Hn Hb. rewrite g_fp_fmt. apply (g_fmt_total n); assumption. Qed.
